@@ -48,6 +48,23 @@ def bandStats (s : CSums) : CStats :=
   let rmse2 := s.res2 / s.n
   { r2 := divO' (num * num) (ds * dr), rmse2 := some rmse2, rrmse2 := divO' rmse2 (mr * mr), n := s.n.floor }
 
+/-! ### The "Mean" row
+
+A statistic of a band is `none` where it is undefined (the code holds a nan there).  The code adds the bands' values up with
+`+` (`sum_over_bands.get(k, 0) + v`) and divides by the number of compared bands: a nan term makes the sum, and the mean, nan. -/
+
+/-- float addition with nan as `none`: undefined absorbs -/
+def addO (a b : Option Rat) : Option Rat :=
+  match a, b with
+  | some x, some y => some (x + y)
+  | _, _ => none
+
+/-- the sum over the bands as `_get_image_stats` forms it, starting from `sum_over_bands.get(k, 0)` = 0 -/
+def sumOverBands (vals : List (Option Rat)) : Option Rat := vals.foldl addO (some 0)
+
+/-- the "Mean" entry of one statistic: the sum over the bands divided by the number of bands -/
+def meanRow (vals : List (Option Rat)) : Option Rat := (sumOverBands vals).map (· / (vals.length : Rat))
+
 /-! ### ParamStats -/
 
 /-- per-tile accumulator of `stats.py` for one band (valid pixels only) -/
